@@ -306,6 +306,45 @@ theorem C10_idem_top_partial2 {c : HdrCfg} {info : Extracted} {t hdr b : Text} (
   have := C10_idem_fresh_partial2 hs he hcom hfresh h1 hno htex hinfo (C10_nothing_above_top c _) hrepro n
   simpa using this
 
+/-- **The `.license` pseudo style** (`--force-dot-license`, files without a comment style), the property's case: the
+    `.license` file holds no REUSE information before.  The run writes the header and its line end, nothing else
+    (`a = ""`, `b = ""`); for this style the whole text is the block, so the second run finds `hdr ++ "\n"` at the
+    first position as soon as it carries REUSE information (`hinfo`), and `n + 1` runs give `hdr ++ "\n"` when
+    `create_header` on that block (with the line end the locator adds) and the same request returns `hdr` (`hrepro`). -/
+theorem C10_idem_license_partial2 {c : HdrCfg} {info : Extracted} {t a hdr b : Text} (hs : c.style ∈ Generated.styles)
+    (hname : (c.style.name == "EmptyCommentStyle") = true) (hfresh : findFirstSpdxComment c t = none)
+    (h1 : firstRunParts c info t = some (a, hdr, b))
+    (hinfo : containsReuseInfo c.parses (hdr ++ ['\n']) = true)
+    (hrepro : createHeader c info (hdr ++ ['\n', '\n']) = .ok hdr) (n : Nat) :
+    a = [] ∧ b = [] ∧ runs c info (n + 1) t = .ok (hdr ++ ['\n']) := by
+  have hes : c.style.isEmptyStyle = true := by simp [Generated.Style.isEmptyStyle, hname]
+  have hsb : c.style.shebangs = [] := C08.C08_pseudo_table _ hs hes
+  obtain ⟨_, ha, hb⟩ := firstRunParts_some h1
+  have hsec : replaceSections c t = ([], [], []) := by
+    unfold replaceSections
+    simp only [hfresh, hname, if_true, hsb, moveShebang]
+  rw [hsec] at ha hb
+  have ha' : a = [] := by rw [ha]; decide
+  have hb' : b = [] := by rw [hb]; simp [belowOf]; decide
+  subst ha' hb'
+  refine ⟨rfl, rfl, ?_⟩
+  have hfind : findFirstSpdxComment c ([] ++ hdr ++ ['\n'] ++ []) = some ([], hdr ++ ['\n'] ++ ['\n'], []) := by
+    unfold findFirstSpdxComment
+    rw [lineStartSuffixes_eq, List.findSome?_cons]
+    have hc : commentAtFirst c.style ([] ++ hdr ++ ['\n'] ++ []) = .ok (hdr ++ ['\n']) := by
+      unfold commentAtFirst
+      simp [hes]
+    simp only [hc]
+    simp [hinfo]
+  have h2 : secondRunOK c info [] hdr [] = true := by
+    unfold secondRunOK
+    rw [hfind]
+    simp only [hname, if_true, hsb, okText]
+    have : hdr ++ ['\n'] ++ ['\n'] = hdr ++ ['\n', '\n'] := by simp
+    rw [this, hrepro]
+    simp
+  simpa using C10_idem_partial h1 h2 n
+
 /-- the marker condition excludes something (TeX's `% !TEX` against `% `), and holds elsewhere -/
 example : ∃ s ∈ Generated.styles, s.name = "TexCommentStyle" ∧ ¬ ShebangFree s "% !TEX".toList ∧ ShebangFree s "%!TEX".toList := by
   decide +kernel
